@@ -37,6 +37,11 @@ class MgrProp(core.Prop):
         line = mgr.request_line(kind, shuffle, script, tape, sess.ops, sess.trace)
         impl = wire.enc(sess.trace)
         desc = {"kind": kind, "shuffle": bool(shuffle), "script": script, "tape": list(tape), "ops": sess.ops}
+        if kind == 1 and getattr(sess, "sim", None) is not None and hasattr(sess, "mgr"):
+            what = mgr.reordering_reset(sess)
+            if what:
+                self.runtime_failures = getattr(self, "runtime_failures", [])
+                self.runtime_failures.append((what, dict(desc, after_history="reordering_reset")))
         if kind == 0 and getattr(sess, "sim", None) is not None and hasattr(sess, "mgr"):
             what = mgr.faulting_last_step(sess)
             if what:
